@@ -278,4 +278,31 @@ theorem reparse (cs : List Char) (s : DSymData) (h : parse cs = .ok s) :
     obtain ⟨inv, h1, h2, hf⟩ := fromSpec_fits spec s h hsize hms
     exact print_parse s 1 1 inv h1 h2 hf
 
+/-! ### the stored orbit lengths are the true ones -/
+
+/-- for every chamber and adjacent index pair: `r(i, i+1, d)` answers the least k ≥ 1 with
+    (s_{i+1} s_i)^k d = d, and the degree is that number times the branching number -/
+def DegreesAreMultiplesOfOrbitLengths (s : DSymData) : Prop :=
+  ∀ i d, i < s.dim → 1 ≤ d → d ≤ s.size →
+    ∃ r v, IsPeriod (stepF s.dset i) d r ∧ s.rPartial i (i + 1) d = .ok (some r) ∧
+      s.vPartial i (i + 1) d = .ok (some v) ∧ s.mPartial i (i + 1) d = .ok (some (r * v))
+
+theorem SymInv.orbitLengths {s : DSymData} (h : SymInv s) : DegreesAreMultiplesOfOrbitLengths s := by
+  have N := collectOrbits_numbering h.set s.view rfl (fun j e hj he1 he2 => view_op_in_range s hj he1 he2)
+  intro i d hi h1 h2
+  obtain ⟨hr, _⟩ := rPartial_val h hi h1 h2
+  have hv := vPartial_val h hi h1 h2
+  refine ⟨_, _, ?_, hr, hv, DSymData.mOf_some hr hv⟩
+  have := N.per i hi d h1 h2
+  rw [← h.rs_eq, ← h.index_eq] at this
+  exact this
+
+/-- one round of the walk is `op_i` followed by `op_{i+1}` of the symbol -/
+theorem stepF_is_two_ops {s : DSymData} (h : SymInv s) {i x : Nat} (hi : i < s.dim) (h1 : 1 ≤ x)
+    (h2 : x ≤ s.size) :
+    s.op i x = some (s.dset.opU i x) ∧ s.op (i + 1) (s.dset.opU i x) = some (stepF s.dset i x) := by
+  have a := h.set.range i x (by unfold DSymData.dim at hi; omega) h1 h2
+  exact ⟨opSimple_in_range s.dset (by unfold DSymData.dim at hi; omega) h1 h2,
+    opSimple_in_range s.dset (by unfold DSymData.dim at hi; omega) a.1 a.2⟩
+
 end DSymVerif.Text
